@@ -38,6 +38,7 @@ func c33Payload(r *rand.Rand, tag string, max int) string {
 	for strings.HasSuffix(s, "\n") || strings.HasSuffix(s, "\r") {
 		s = s[:len(s)-1] + "x"
 	}
+	s = noAnsiConst(s)
 	return s
 }
 
